@@ -45,6 +45,20 @@ def ladder():
         }
         for k, t in shapes.items():
             out.append({"id": f"ladder_{k}_{d}", "text": t, "depth": d, "kind": "ladder_" + k})
+    # width: aggregations over many elements and long operator chains (the expression trees must not get deep with them);
+    # the widths stay where the dense standard form (rows x columns) is a few million entries
+    for n in (100, 1000, 5000, 20000):
+        shapes = {
+            "sumconst": f"min x\ns.t.\n    x >= sum(i in 0..{n}) {{ 1 }}\ndefine\n    x as Real",
+            "sumvars": f"min sum(i in 0..{n}) {{ x_i }}\ns.t.\n    x_0 >= 1\ndefine\n    x_i as NonNegativeReal for i in 0..{n}",
+            "prodconst": f"min prod(i in 0..{min(n, 1000)}) {{ 1 }} * x\ns.t.\n    x >= 1\ndefine\n    x as Real(0, 5)",
+            "avgvars": f"min avg(i in 0..{min(n, 5000)}) {{ x_i }}\ns.t.\n    x_0 >= 1\ndefine\n    x_i as NonNegativeReal for i in 0..{min(n, 5000)}",
+            "rows": f"min x_0\ns.t.\n    x_i + x_0 >= 1 for i in 0..{min(n, 200)}\ndefine\n    x_i as NonNegativeReal for i in 0..{min(n, 200)}",
+            "chain": f"min x\ns.t.\n    x >= {' + '.join(['1'] * min(n, 3000))}\ndefine\n    x as Real",
+            "xorvars": f"solve\ns.t.\n    xor(i in 0..{min(n, 300)}) {{ x_i }}\ndefine\n    x_i as Boolean for i in 0..{min(n, 300)}",
+        }
+        for k, t in shapes.items():
+            out.append({"id": f"wide_{k}_{n}", "text": t, "depth": n, "kind": "ladder_wide_" + k})
     return out
 
 
@@ -104,6 +118,9 @@ def check(tier, seed, replay=None):
         cases += ladder()
         cases += [{"id": f"extreme{i}", "text": t, "kind": "extreme"} for i, t in enumerate(EXTREME)]
         cases += soup(seed, 300 if tier == "quick" else 6000)
+        ix, g, dd = core.gen_cases(SPEC_DIR, "IndexGen.tla", "IndexGen.cfg", "indexgen", workers=2)
+        meta["IndexGen"] = {"cases": len(ix), "gen_states": dd, "gen_transitions": g}
+        cases += [{"id": f"index{i}", "text": c["text"], "kind": "index"} for i, c in enumerate(ix)]
         # mutation histories from the TLA+ machine
         base = os.path.join(d, "base.ndjson")
         core.write_ndjson(base, [tokens_of(p) for p in progs[:40]])
